@@ -500,11 +500,9 @@ func judgeCycle(c, rep *wcase, res []pollResult, got string, st *store.MemStore)
 				return mk("wrong-call-kind", "only Put/BatchPut", logStr(muts)), observed
 			}
 		}
-		// each stated write exactly once (as a multiset), and for every key the
-		// values in the order stated (so that a later duplicate wins); the
-		// relative order of writes to different keys is not prescribed
+		// the calls carry the stated writes' effect and nothing else (see sameWrites)
 		if msg := sameWrites(carried, writes); msg != "" {
-			return mk("writes-differ-from-statement", "writes "+store.CanonPairsList(writes)+" (each once; per key in this order)", "writes "+store.CanonPairsList(carried)+": "+msg), observed
+			return mk("writes-differ-from-statement", "writes with the effect of "+store.CanonPairsList(writes)+" (per key the last stated value last)", "writes "+store.CanonPairsList(carried)+": "+msg), observed
 		}
 	case "remove":
 		var carried []string
@@ -520,8 +518,22 @@ func judgeCycle(c, rep *wcase, res []pollResult, got string, st *store.MemStore)
 		for _, w := range writes {
 			want = append(want, w.K)
 		}
-		if strings.Join(carried, "\x00") != strings.Join(want, "\x00") {
-			return mk("removes-differ-from-statement", fmt.Sprintf("removes in order %q", want), fmt.Sprintf("removes %q", carried)), observed
+		// the keys removed are the keys stated: every one of them at least once
+		// and at most as often as stated, no other key; their order is free
+		cnt := func(ks []string) map[string]int {
+			m := map[string]int{}
+			for _, k := range ks {
+				m[k]++
+			}
+			return m
+		}
+		cg, cw := cnt(carried), cnt(want)
+		same := len(cg) == len(cw)
+		for k, n := range cw {
+			same = same && cg[k] >= 1 && cg[k] <= n
+		}
+		if !same {
+			return mk("removes-differ-from-statement", fmt.Sprintf("removes of exactly the keys %q", want), fmt.Sprintf("removes %q", carried)), observed
 		}
 	case "delete":
 		for _, o := range muts {
@@ -554,23 +566,46 @@ func judgeCycle(c, rep *wcase, res []pollResult, got string, st *store.MemStore)
 	return nil, observed
 }
 
-// sameWrites: got is a permutation of want that keeps, for every key, the
-// order of its values.
+// sameWrites: the writes issued (got) have the effect of the writes stated
+// (want) and carry nothing else. For every stated key the last value issued is
+// the last value stated (a later duplicate wins), every value issued for a key
+// is one of the values stated for it, every stated key is written and no other
+// key is. Whether a pair that a later pair of the same statement overwrites
+// reaches the storage at all is not prescribed (the property speaks of the
+// state the statement leaves), nor is the order of writes to different keys.
 func sameWrites(got, want []store.Pair) string {
-	if len(got) != len(want) {
-		return fmt.Sprintf("%d writes issued, %d stated", len(got), len(want))
-	}
-	per := func(ps []store.Pair) map[string][]string {
+	per := func(ps []store.Pair) (map[string][]string, []string) {
 		m := map[string][]string{}
+		var order []string
 		for _, p := range ps {
+			if _, ok := m[p.K]; !ok {
+				order = append(order, p.K)
+			}
 			m[p.K] = append(m[p.K], p.V)
 		}
-		return m
+		return m, order
 	}
-	g, w := per(got), per(want)
-	for k, vs := range w {
-		if strings.Join(g[k], "\x00") != strings.Join(vs, "\x00") || len(g[k]) != len(vs) {
-			return fmt.Sprintf("key %q: values issued %q, stated %q", k, g[k], vs)
+	g, _ := per(got)
+	w, worder := per(want)
+	for _, k := range worder {
+		vs, gs := w[k], g[k]
+		if len(gs) == 0 {
+			return fmt.Sprintf("key %q: stated %q, never written", k, vs)
+		}
+		if gs[len(gs)-1] != vs[len(vs)-1] {
+			return fmt.Sprintf("key %q: last value issued %q, last value stated %q", k, gs[len(gs)-1], vs[len(vs)-1])
+		}
+		if len(gs) > len(vs) {
+			return fmt.Sprintf("key %q: %d writes issued for %d stated", k, len(gs), len(vs))
+		}
+		for _, x := range gs {
+			ok := false
+			for _, y := range vs {
+				ok = ok || x == y
+			}
+			if !ok {
+				return fmt.Sprintf("key %q: value %q issued, stated %q", k, x, vs)
+			}
 		}
 	}
 	for k := range g {
@@ -901,7 +936,7 @@ func (c12) Info() core.Info {
 		Level: "model_checking",
 		Rule: "explicit-state search over the same 81-state space as C11 (C11 additionally runs DELETE over all 256 accept/reject patterns of 8-pair stores): transitions = long `put` / `remove` lists (4..40 elements with duplicate keys in three patterns) and `put` with every list of 1..3 pairs from a pool of 15 pair expressions (literals, duplicate keys, concatenated and numeric keys, values that read `key`, function calls) plus 3 failing ones at every position, `remove` with every list of 1..3 keys from a pool of 10 (one failing), each under every poll word of length 1..4 over {Next,Batch} (quick: length <= 3 for 3-element lists) at batch sizes {1,32}, plus statically forbidden forms; every transition runs on the real plan over a clone of the state. Oracle: post-state = model (later duplicate wins; value sees its own key); the pairs/keys carried by the mutating calls, in call order, are exactly the evaluated list (each stated write once); no write on evaluation failure; no storage call and no row on later polls; a follow-up `select * where key = k` observes each write; forbidden forms are rejected with an empty call log. " +
 			"Non-trivial: the statement changes the state or fails at evaluation. Distinct: (state, statement, B, polls).",
-		Assumptions:      []string{"whether writes travel as Put or BatchPut is not prescribed (the property says 'exactly once')", "numbers written by PUT are compared as decimal integers only (no float rendering is documented)"},
+		Assumptions:      []string{"whether writes travel as Put or BatchPut is not prescribed (the property says 'exactly once'), nor whether a pair overwritten by a later pair of the same statement (or a key named twice by REMOVE) reaches the storage more than once: the calls must carry the stated writes' effect and nothing else", "numbers written by PUT are compared as decimal integers only (no float rendering is documented)"},
 		CrashIsViolation: true,
 	}
 }
@@ -979,6 +1014,30 @@ func (c12) RunUnit(t core.Tier, u int, r *core.Reporter) {
 				keys = append(keys, ref.S(ks[(i*(pat+1))%len(ks)]))
 			}
 			run(&wstmt{Kind: "remove", Keys: keys}, []string{"N", "B"}, []int{32})
+		}
+	}
+	// every pattern of repeated keys: all key sequences of length 4 and 5 over
+	// three keys, each pair with a value of its own (a value that ends under
+	// another key, or a key that keeps an earlier value, shows in the state)
+	for _, n := range []int{4, 5} {
+		total := 1
+		for i := 0; i < n; i++ {
+			total *= 3
+		}
+		for code := 0; code < total; code++ {
+			var pairs [][2]*ref.Expr
+			var keys []*ref.Expr
+			x := code
+			for i := 0; i < n; i++ {
+				k := []string{"a", "b", "ab"}[x%3]
+				x /= 3
+				pairs = append(pairs, [2]*ref.Expr{ref.S(k), ref.S(fmt.Sprintf("v%d", i))})
+				keys = append(keys, ref.S(k))
+			}
+			if u%3 == code%3 { // (a third of the patterns per state: every pattern meets 27 states)
+				run(&wstmt{Kind: "put", Pairs: pairs}, []string{"N", "B"}, []int{32})
+				run(&wstmt{Kind: "remove", Keys: keys}, []string{"B"}, []int{32})
+			}
 		}
 	}
 	rp := c12RemovePool()
